@@ -8,7 +8,7 @@ PID = "C07"
 MODULE, PKG, BIN = "core", "./verifh/c07", "c07"
 COQ_IMPORTS = "From Synnax Require Import Common.Base Generated.Consts_C15 Core.Channel Core.Dist Monitors.Mon_C07."
 CASE_TYPE = "case_t"
-COUNTS = {"quick": 480, "thorough": 8000}
+COUNTS = {"quick": 360, "thorough": 8000}
 SHARD = 40
 PROCS = 8
 HARNESS_TIMEOUT = 900
